@@ -172,8 +172,11 @@ class KeyedList(Generic[ItemType, KeyType], MutableSequence, KeyedBase):  # pyli
         if isinstance(index_or_key, slice):
             raise RuntimeError("Cannot delete multiple values at a time.")
         if isinstance(index_or_key, int):
-            value = self._list.pop(index_or_key)
-            del self._dict[self.key(value)]
+            # Look up the key before touching anything, so that a failure to
+            # do so leaves the list and the key index consistent.
+            key = self.key(self._list[index_or_key])
+            del self._list[index_or_key]
+            del self._dict[key]
             return
 
         index = self.index_for_key(index_or_key)
